@@ -45,8 +45,12 @@ class Session(BusSession):
         self.rules = {l: Counter() for l in SLOTS}
         self.small = params.get('small', False)
 
+    def lim_names(self):
+        # with the two names of the small alphabet the limit must be 2 (unique name + 1), otherwise no request could exceed it
+        return 2 if self.params.get('small') else LIM['max_names_per_connection']
+
     def config(self):
-        return B.make_config(limits=LIM)
+        return B.make_config(limits=dict(LIM, max_names_per_connection=self.lim_names()))
 
     # ------------------------------------------------------------------
     def n_incomplete(self):
@@ -239,7 +243,7 @@ class Session(BusSession):
             if kind == 'req':
                 s, rep = self.method(l, 'RequestName', [R.S(n), R.U(op[3])])
                 inq = l in self.reg.queued(n)
-                if self.names_count(l) >= LIM['max_names_per_connection']:
+                if self.names_count(l) >= self.lim_names():
                     if inq and rep is not None and rep.kind == R.MT_RETURN:
                         code, _ = self.reg.request(l, n, op[3])          # re-request at the limit: does not exceed it
                         self.hit('req-at-limit-rerequest')
@@ -336,7 +340,7 @@ class Session(BusSession):
             uids[uid] += 1
             if ns != ls or nr != lr:
                 out.append(Violation('counter-mismatch', 'per-connection', '%s: %s n_services=%d list=%d n_rules=%d list=%d' % (desc, lab, ns, ls, nr, lr), None))
-            if ns > LIM['max_names_per_connection'] or nr > LIM['max_match_rules_per_connection']:
+            if ns > self.lim_names() or nr > LIM['max_match_rules_per_connection']:
                 out.append(Violation('limit-exceeded', 'per-connection-counter', '%s: %s holds %d names, %d rules' % (desc, lab, ns, nr), None))
             l = lab[1:]
             if l in SLOTS:
